@@ -1,5 +1,6 @@
 (* C11 property theorems (statements only; proofs are in C11_proofs.v).
-   Model: C11_model.v (local = 2-D array path of PeriodicGrid.get_localgrid, local1d = 1-D array path).
+   Model: C11_model.v (local = 2-D array path of PeriodicGrid.get_localgrid, local1d = 1-D array path),
+   mirroring the source after the fixes of the empty-sphere / negative 1-D vector / 1-D no-lattice defects.
    Vectors are triples of reals (dimension <= 3), A = lattice vectors, B = reciprocal vectors with
    dual B A (b_k . a_l = delta_kl); ball = the k-d tree ball query with contract ball_ok. *)
 From Coq Require Import ZArith List Bool Reals.
@@ -29,12 +30,19 @@ Theorem range_is_code_formula : forall A B wrap pts c r k j, dual B A -> 0 <= r 
 Proof. exact range_is_code_formula_all. Qed.
 Print Assumptions range_is_code_formula.
 
+(* 1-D array path: the range is the code's ceil(lo - b c - r/s) .. floor(hi - b c + r/s), s = abs(1/b) *)
+Theorem range1d_is_code_formula : forall lo hi b c r j, b <> 0 ->
+  let s := Rabs (1 / b) in
+  In j (range1d ROps lo hi (b * c) (r * nabs ROps b)) <->
+  (Zceil (lo - b * c - r / s) <= j <= Zfloor (hi - b * c + r / s))%Z.
+Proof. exact range1d_is_code_formula_lemma. Qed.
+Print Assumptions range1d_is_code_formula.
+
 (* the local grid is exactly the set of (parent index, parent point + lattice translation, parent weight)
-   with the translated point within the radius (errors of the model count as the empty list: see
-   ok_iff_sphere_nonempty / empty_refuted) *)
+   with the translated point within the radius (closed ball) *)
 Theorem local_grid_exact : forall W (wd : W) ball, ball_ok ball ->
   forall A B wrap pts wts c r, dual B A -> 0 <= r ->
-  forall i q w, In (i, q, w) (items (local ROps wd ball A B wrap pts wts c r)) <->
+  forall i q w, In (i, q, w) (local ROps wd ball A B wrap pts wts c r) <->
     ((i < length pts)%nat /\ w = nth i wts wd /\
      exists j, length j = length A /\ q = radd (nth i pts rv0) (rlin j A) /\ rnorm (rsub q c) <= r).
 Proof. exact (@local_grid_exact_lemma). Qed.
@@ -42,7 +50,7 @@ Print Assumptions local_grid_exact.
 
 Theorem sound : forall W (wd : W) ball, ball_ok ball ->
   forall A B wrap pts wts c r, dual B A -> 0 <= r ->
-  forall i q w, In (i, q, w) (items (local ROps wd ball A B wrap pts wts c r)) ->
+  forall i q w, In (i, q, w) (local ROps wd ball A B wrap pts wts c r) ->
   exists j, length j = length A /\ q = radd (nth i pts rv0) (rlin j A) /\ rnorm (rsub q c) <= r.
 Proof. exact (@sound_lemma). Qed.
 Print Assumptions sound.
@@ -50,13 +58,13 @@ Print Assumptions sound.
 (* each (grid point, translation) once: no two entries share parent index and position *)
 Theorem no_duplicates : forall W (wd : W) ball, ball_ok ball ->
   forall A B wrap pts wts c r, dual B A ->
-  NoDup (map fst (items (local ROps wd ball A B wrap pts wts c r))).
+  NoDup (map fst (local ROps wd ball A B wrap pts wts c r)).
 Proof. exact (@no_duplicates_lemma). Qed.
 Print Assumptions no_duplicates.
 
 Theorem position_is_parent_plus_translation : forall W (wd : W) ball, ball_ok ball ->
   forall A B wrap pts wts c r, dual B A -> 0 <= r ->
-  forall i q w, In (i, q, w) (items (local ROps wd ball A B wrap pts wts c r)) ->
+  forall i q w, In (i, q, w) (local ROps wd ball A B wrap pts wts c r) ->
   (exists j, length j = length A /\ q = radd (nth i pts rv0) (rlin j A)) /\
   (exists j, length j = length A /\ q = radd (nth i (stored_points ROps A B wrap pts) rv0) (rlin j A)).
 Proof. exact (@position_lemma). Qed.
@@ -64,72 +72,44 @@ Print Assumptions position_is_parent_plus_translation.
 
 Theorem weights_indices_parent : forall W (wd : W) ball, ball_ok ball ->
   forall A B wrap pts wts c r, dual B A -> 0 <= r ->
-  forall i q w, In (i, q, w) (items (local ROps wd ball A B wrap pts wts c r)) ->
+  forall i q w, In (i, q, w) (local ROps wd ball A B wrap pts wts c r) ->
   (i < length pts)%nat /\ w = nth i wts wd.
 Proof. exact (@weights_indices_parent_lemma). Qed.
 Print Assumptions weights_indices_parent.
 
 Theorem wrap_irrelevant : forall W (wd : W) ball, ball_ok ball ->
   forall A B pts wts c r, dual B A -> 0 <= r ->
-  (forall it, In it (items (local ROps wd ball A B true pts wts c r)) <->
-              In it (items (local ROps wd ball A B false pts wts c r))) /\
-  is_ok (local ROps wd ball A B true pts wts c r) = is_ok (local ROps wd ball A B false pts wts c r).
+  forall it, In it (local ROps wd ball A B true pts wts c r) <->
+             In it (local ROps wd ball A B false pts wts c r).
 Proof. exact (@wrap_irrelevant_lemma). Qed.
 Print Assumptions wrap_irrelevant.
 
-(* without lattice vectors: the plain grid's local grid (points[indices], weights[indices], indices) *)
-Theorem no_lattice_is_plain_grid : forall W (wd : W) ball, ball_ok ball ->
-  forall wrap pts wts c r,
-  items (local ROps wd ball [] [] wrap pts wts c r) =
-  map (fun i => (i, nth i pts rv0, nth i wts wd)) (ball pts c r).
+(* without lattice vectors (both array layouts): the plain grid's local grid
+   (points[indices], weights[indices], indices) *)
+Theorem no_lattice_is_plain_grid : forall W (wd : W) ball, ball_ok ball -> forall wrap pts wts c r,
+  local ROps wd ball [] [] wrap pts wts c r = map (fun i => (i, nth i pts rv0, nth i wts wd)) (ball pts c r) /\
+  local1d ROps wd ball [] [] wrap pts wts c r = map (fun i => (i, nth i pts rv0, nth i wts wd)) (ball pts c r).
 Proof. exact no_lattice_lemma_b. Qed.
 Print Assumptions no_lattice_is_plain_grid.
 
-(* the model returns a grid iff the sphere contains at least one image ... *)
-Theorem ok_iff_sphere_nonempty : forall W (wd : W) ball, ball_ok ball ->
+(* a sphere containing no image gives the empty local grid (no exception) *)
+Theorem empty_sphere_gives_empty_grid : forall W (wd : W) ball, ball_ok ball ->
   forall A B wrap pts wts c r, dual B A -> 0 <= r ->
-  (is_ok (local ROps wd ball A B wrap pts wts c r) = true <->
-   exists i j, (i < length pts)%nat /\ length j = length A /\
-               rnorm (rsub (radd (nth i pts rv0) (rlin j A)) c) <= r).
-Proof. exact (@ok_iff_nonempty_lemma). Qed.
-Print Assumptions ok_iff_sphere_nonempty.
+  (forall i j, (i < length pts)%nat -> length j = length A ->
+               ~ rnorm (rsub (radd (nth i pts rv0) (rlin j A)) c) <= r) ->
+  local ROps wd ball A B wrap pts wts c r = [].
+Proof. exact (@empty_sphere_lemma). Qed.
+Print Assumptions empty_sphere_gives_empty_grid.
 
-(* ... so "for spheres containing no image" fails on the pinned code: it raises instead of returning an
-   empty local grid (AssertionError when a range is empty, ValueError from np.concatenate otherwise) *)
-Theorem empty_refuted : forall W (wd : W) ball, ball_ok ball ->
-  (forall A B wrap pts wts c r, dual B A -> 0 <= r ->
-     (forall i j, (i < length pts)%nat -> length j = length A ->
-                  ~ rnorm (rsub (radd (nth i pts rv0) (rlin j A)) c) <= r) ->
-     is_ok (local ROps wd ball A B wrap pts wts c r) = false) /\
-  (forall w, dual [e1 (1/10)] [e1 10] /\ local ROps wd ball [e1 10] [e1 (1/10)] false [e1 0] [w] (e1 5) 1 = AssertFail) /\
-  (forall w, dual [] [] /\ local ROps wd ball [] [] false [e1 0] [w] (e1 5) 1 = EmptyConcat).
-Proof. exact (@empty_refuted_lemma). Qed.
-Print Assumptions empty_refuted.
-
-(* 1-D array path with a positive lattice vector: exact and duplicate-free *)
+(* 1-D array path with a lattice vector of either sign: exact and duplicate-free *)
 Theorem path1d_exact : forall W (wd : W) ball, ball_ok ball ->
-  forall a b wrap pts wts c r, b * a = 1 -> 0 < a -> 0 <= r ->
-  (forall i q w, In (i, q, w) (items (local1d ROps wd ball [e1 a] [e1 b] wrap pts wts c r)) <->
+  forall a b wrap pts wts c r, b * a = 1 -> 0 <= r ->
+  (forall i q w, In (i, q, w) (local1d ROps wd ball [e1 a] [e1 b] wrap pts wts c r) <->
     ((i < length pts)%nat /\ w = nth i wts wd /\
      exists j, length j = 1%nat /\ q = radd (nth i pts rv0) (rlin j [e1 a]) /\ rnorm (rsub q c) <= r)) /\
-  NoDup (map fst (items (local1d ROps wd ball [e1 a] [e1 b] wrap pts wts c r))).
+  NoDup (map fst (local1d ROps wd ball [e1 a] [e1 b] wrap pts wts c r)).
 Proof. exact (@path1d_exact_lemma). Qed.
 Print Assumptions path1d_exact.
-
-(* 1-D array path, negative lattice vector a = -4: point 1, centre 1, radius 7/2 (the point itself is in the
-   sphere) raises the assertion: the path uses the signed 1/b as spacing *)
-Theorem neg_1d_refuted : forall W (wd : W) ball, ball_ok ball -> forall w,
-  (-1/4) * (-4) = 1 /\
-  local1d ROps wd ball [e1 (-4)] [e1 (-1/4)] false [e1 1] [w] (e1 1) (7/2) = AssertFail /\
-  rnorm (rsub (radd (e1 1) (rlin [0%Z] [e1 (-4)])) (e1 1)) <= 7/2.
-Proof. exact neg_1d_refuted_lemma_b. Qed.
-Print Assumptions neg_1d_refuted.
-
-(* 1-D array path without lattice vectors: the constructor raises on every input *)
-Theorem no_lattice_1d_refuted : forall W (wd : W) ball, ball_ok ball -> forall wrap pts wts c r,
-  local1d ROps wd ball [] [] wrap pts wts c r = Broadcast.
-Proof. exact no_lattice_1d_refuted_lemma_b. Qed.
-Print Assumptions no_lattice_1d_refuted.
 
 (* the contract assumed of the k-d tree is satisfied by the exact filter used for execution *)
 Theorem ball_contract_exact_filter : ball_ok (exact_ball ROps).
